@@ -43,8 +43,9 @@ class C14(Prop):
                 evs = [[None, T0 + rng.randrange(0, 50) * 1_000_000, rng.choice([0, 0, 1, 1500, 2_000_000, 86_400_000_000]),
                         rng.choice(storegen.LABELS)] for _ in range(n)]
                 buckets.append({"id": bid, "meta": m, "events": evs})
-            out.append(("legacy-db", {"testing": rng.random() < 0.5, "mode": rng.choice(["same", "same", "same", "other-profile", "custom-path"]),
-                                      "buckets": buckets}))
+            mode = rng.choice(["same", "same", "same", "other-profile", "custom-path"])
+            out.append(("legacy-db", {"testing": rng.random() < 0.5, "mode": mode, "buckets": buckets,
+                                      "other_first": mode == "same" and rng.random() < 0.3}))
         return out
 
     def impl(self, case):
@@ -68,6 +69,11 @@ class C14(Prop):
             files = sorted(os.listdir(data_dir))
             lpath = os.path.join(data_dir, [f for f in files if f.startswith("peewee")][0])
             h0 = file_hash(lpath)
+            if case.get("other_first"):
+                # the store of the other profile already exists in the shared data directory
+                o = SqliteStorage(testing=not case["testing"])
+                o.conn.close()
+                h0 = file_hash(lpath)
             if case["mode"] == "same":
                 new = SqliteStorage(testing=case["testing"])
             elif case["mode"] == "other-profile":
@@ -81,7 +87,7 @@ class C14(Prop):
                 pw._db.close()
             except Exception:
                 pass
-            h1 = file_hash(lpath)
+            h1 = file_hash(lpath) if os.path.exists(lpath) else "legacy file is gone"
             return {"legacy": legacy_dump, "new": new_dump, "legacy_unchanged": h0 == h1, "files": files}
         finally:
             if old_env is None:
